@@ -3,8 +3,10 @@ package types
 import (
 	"fmt"
 	"go/token"
+	"io"
 	"iter"
 	"maps"
+	"os"
 	"path/filepath"
 	"slices"
 
@@ -85,7 +87,7 @@ func Load(patterns []string, options ...func(c *packages.Config)) (*Universe, er
 				localPkgPaths[p.PkgPath] = directPkgPaths[p.PkgPath]
 
 				if pkgDir := p.Dir; pkgDir != "" {
-					x, _ := dirhash.HashDir(pkgDir, "", dirhash.Hash1)
+					x, _ := hashPkgDir(pkgDir, p.Module.Dir)
 					u.sumFile.Data[p.PkgPath] = x
 
 					if mod := pkg.Module(); mod != nil {
@@ -119,6 +121,22 @@ func Load(patterns []string, options ...func(c *packages.Config)) (*Universe, er
 	u.localPkgPaths = localPkgPaths
 
 	return u, nil
+}
+
+// hashPkgDir is dirhash.HashDir(dir, "", dirhash.Hash1) without the module's own gengo.sum: that file lies in
+// the directory of a package at the module root and is rewritten by every run, so hashing it would make
+// that package look changed forever.
+func hashPkgDir(dir string, modRoot string) (string, error) {
+	files, err := dirhash.DirFiles(dir, "")
+	if err != nil {
+		return "", err
+	}
+	if filepath.Clean(dir) == filepath.Clean(modRoot) {
+		files = slices.DeleteFunc(files, func(name string) bool { return name == sumfile.Filename })
+	}
+	return dirhash.Hash1(files, func(name string) (io.ReadCloser, error) {
+		return os.Open(filepath.Join(dir, name))
+	})
 }
 
 type Universe struct {
